@@ -20,6 +20,10 @@ nothing is attributed to a known finding any more. The harness-side instrumentat
 kept as evidence counters (a cross-compilation hit of the weight cache must not happen at all now).
 
  (4) the hill-climb allocator called repeatedly in one process on live ranges that need its randomised search.
+ (5) *caller-owned buffers* (harness/c14_buffers.py): in one fresh interpreter main, convert, convert_bytes(bytearray copy),
+     convert_bytes(read-only memoryview), convert_bytes(writable memoryview) and ONE bytearray handed to convert_bytes three times,
+     on networks whose constants the graph optimiser rewrites in place (detnets kind pad_edit) and on ordinary ones: one
+     `detclass` over all calls, and `bufkept` (Spec/Determinism.lean `inputKept`) over the buffer contents before / after each call.
  (3) the greedy allocator on live ranges it cannot tell apart, re-created at different heap addresses: the addresses it
      hands out must depend on the creation order only.
 """
@@ -45,6 +49,7 @@ import fbwalk
 import pipe_common
 import pipeline
 import detnets
+import c14_buffers
 from common import Check, main_wrapper
 
 # summary CSV columns that are NOT compared: constant label, and the network name (derived from the file name)
@@ -768,6 +773,10 @@ def main():
         st = rp.get("step")
         if st:
             scns.append({"id": 0, "shape": "alone", "steps": [dict(st, entry="main", reset=False, keep_model=True)]})
+        if rp["scenario"]["shape"] == "buffers":
+            # caller-owned buffers (harness/c14_buffers.py): the recorded scenario alone, in a fresh interpreter
+            st_b = c14_buffers.stage(ck, hardcoded, status_of, only=[rp["scenario"]])
+            ck.finish(dict(st_b, evaluations=st_b["buffer_calls"], distinct_nontrivial=1, rule="replay"))
         if rp["scenario"]["shape"] == "cli":
             cli_jobs = [(st["net"], st["opts"], st.get("hashseed", 0), common._ext_dir, st.get("gen_opts") or [])]
         else:
@@ -793,6 +802,8 @@ def main():
         for st_ in g2steps[:(12 if ck.thorough else 4)]:
             for hs in hseeds[:2]:
                 cli_jobs.append((list(st_["net"]), st_["opts"], hs, common._ext_dir, st_["gen_opts"]))
+    # (5) caller-owned buffers: every entry point, read-only / writable views, one bytearray compiled two and three times
+    buf_stats = c14_buffers.stage(ck, hardcoded, status_of) if not ck.replay_arg else {"buffer_scenarios": 0, "buffer_calls": 0, "buffer_disagreements": 0}
     nsort = writer_sort_correspondence(ck, info)
     ngreedy = greedy_tie_probe(ck)
     nhill = hillclimb_repeat_probe(ck)
@@ -923,13 +934,14 @@ def main():
         n_whash = writer_stage.hashseed_stage(ck, wcases, [1, 2, 3, 4, 5, 6, 7, 8] if ck.thorough else [11, 12, 13], 300 if ck.thorough else 60)
 
     ck.finish({
+        **buf_stats,
         "writer_hashseed_cases": n_whash,
         "explanation": "Sequences of compilations are run inside one interpreter (fresh fork per sequence) through main / convert / "
                        "convert_bytes, plus command-line subprocesses under several PYTHONHASHSEED values; all runs of the same (model, "
                        "effective options) form a class whose (ending, output size, SHA-256, summary columns, debug database) the Lean "
                        "judge Determinism.agree must find identical. Props/C14 proves when the abstract process-state model is history "
                        "independent and exhibits the witnesses where the unchanged code is not.",
-        "evaluations": nsteps + len(cli_results) + nsort + ngreedy + nhill + n_whash,
+        "evaluations": nsteps + len(cli_results) + nsort + ngreedy + nhill + n_whash + buf_stats["buffer_calls"],
         "greedy_tie_trials": ngreedy,
         "hillclimb_repeat_allocations": nhill,
         "compilations_observed": nsteps + len(cli_results),
